@@ -21,7 +21,7 @@ from common import COQ, cz, cnat, clist, cstr
 
 LEVEL = "proof"
 THEOREMS = "Props/C12.v"
-EXTRA_TARGETS = ("Gen/SelectTables.vo", "Select/GenChecks.vo")
+EXTRA_TARGETS = ("Gen/SelectTables.vo", "Select/GenChecks.vo", "Select/SourceEval.vo")
 EXTS = []
 RULE = ("expression strings generated from the grammar (every keyword alias and operator spelling, bare/quoted/numeric "
         "literals, ranges, implicit lists, regex subset, parentheses: conventional, none, full) x topologies with "
@@ -561,12 +561,15 @@ def coq_outcome(o):
     return "EvalErr TypeErr"
 
 
-def coq_codes(ctx, atoms_by_topo, items, shard=300, fn="codes"):
+def coq_codes(ctx, atoms_by_topo, items, shard=300, fn="codes", extra_require="", case_type="nat * string * outcome",
+              case_fmt=None):
     """items: [(case_index, topo_index, string, outcome)] -> ({case_index: code}, errors).  One coqc per shard,
     4 at a time; only (index, code) pairs with code != 0 are printed by Coq and parsed here."""
     from concurrent.futures import ThreadPoolExecutor
-    head = "\n".join(["Require Import MD.Select.Syntax MD.Select.Model MD.Select.Run MD.Gen.SelectTables.",
+    head = "\n".join(["Require Import MD.Select.Syntax MD.Select.Model MD.Select.Run MD.Gen.SelectTables%s." % extra_require,
                       "Open Scope string_scope."])
+    if case_fmt is None:
+        case_fmt = lambda lti, it: "(%d%%nat, %s, %s)" % (lti, cstr(it[2]), coq_outcome(it[3]))      # noqa: E731
     coq_topos = {}
 
     def topo_text(ti):
@@ -578,14 +581,13 @@ def coq_codes(ctx, atoms_by_topo, items, shard=300, fn="codes"):
 
     def run(si_sh):
         si, sh = si_sh
-        used = sorted({ti for _ci, ti, _s, _o in sh})          # only the topologies this shard refers to
+        used = sorted({it[1] for it in sh})          # only the topologies this shard refers to
         local = {ti: k for k, ti in enumerate(used)}
         body = ["From Coq Require Import ZArith List String Bool Ascii.", "Import ListNotations.", head,
                 "Definition topos : list (list atom) := [", ";\n".join(topo_text(ti) for ti in used), "].",
-                "Definition cases : list (nat * (nat * string * outcome)) := ["]
+                "Definition cases : list (nat * (%s)) := [" % case_type]
         # shard-local indices: large nat literals overflow coqc's stack
-        body.append(";\n".join("(%d%%nat, (%d%%nat, %s, %s))" % (j, local[ti], cstr(s), coq_outcome(o))
-                               for j, (ci, ti, s, o) in enumerate(sh)))
+        body.append(";\n".join("(%d%%nat, %s)" % (j, case_fmt(local[it[1]], it)) for j, it in enumerate(sh)))
         body.append("].")
         body.append('Definition tag := "CODES"%string.')
         body.append("Set Printing Depth 1000000.")
@@ -613,6 +615,93 @@ def coq_codes(ctx, atoms_by_topo, items, shard=300, fn="codes"):
     return res, errors
 
 
+class SourceUnsupported(Exception):
+    pass
+
+
+PY_CMP = {"Lt": "CLt", "Eq": "CEq", "LtE": "CLe", "NotEq": "CNe", "GtE": "CGe", "Gt": "CGt"}
+_FRAME = None
+
+
+def source_to_coq(src):
+    """the source of Topology.select_expression -> Coq term of type Syntax.pyexpr for its condition.  Fails closed
+    (SourceUnsupported) on a different comprehension frame and on every node shape outside Syntax.pyexpr."""
+    import ast
+    global _FRAME
+    if _FRAME is None:
+        f = ast.parse("[atom.index for atom in topology.atoms if 0]", mode="eval").body
+        _FRAME = (ast.dump(f.elt), ast.dump(f.generators[0].target), ast.dump(f.generators[0].iter))
+    try:
+        t = ast.parse(src, mode="eval").body
+    except (SyntaxError, ValueError, RecursionError) as e:
+        raise SourceUnsupported("source does not parse: %s" % type(e).__name__)
+    if not (isinstance(t, ast.ListComp) and len(t.generators) == 1 and not t.generators[0].is_async
+            and len(t.generators[0].ifs) == 1
+            and (ast.dump(t.elt), ast.dump(t.generators[0].target), ast.dump(t.generators[0].iter)) == _FRAME):
+        raise SourceUnsupported("frame")
+
+    def text(v):
+        if not all(32 <= ord(ch) <= 126 for ch in v):
+            raise SourceUnsupported("string constant outside printable ASCII")
+        return cstr(v)
+
+    def chain(n):
+        if isinstance(n, ast.Name):
+            if n.id != "atom":
+                raise SourceUnsupported("attribute of %s" % n.id)
+            return ()
+        if isinstance(n, ast.Attribute):
+            return chain(n.value) + (n.attr,)
+        raise SourceUnsupported("attribute base %s" % type(n).__name__)
+
+    def conv(n):
+        if isinstance(n, ast.Constant):
+            v = n.value
+            if v is True or v is False:
+                return "(PConst (VBool %s))" % ("true" if v else "false")
+            if v is None:
+                return "(PConst VNone)"
+            if isinstance(v, str):
+                return "(PConst (VStr %s))" % text(v)
+            if isinstance(v, (int, float)):
+                try:
+                    m, e = dec(repr(v))
+                except ValueError:
+                    raise SourceUnsupported("number %r" % (v,))
+                if m < 0:
+                    raise SourceUnsupported("negative number")
+                return "(PConst (VNum %s %s))" % (cz(m), cnat(e))
+            raise SourceUnsupported("constant %r" % (v,))
+        if isinstance(n, ast.Name):
+            return "(PName %s)" % text(n.id)
+        if isinstance(n, ast.Attribute):
+            f = FIELDS.get(chain(n))
+            if f is None:
+                raise SourceUnsupported("attribute chain %r" % (chain(n),))
+            return "(PAttr %s)" % f
+        if isinstance(n, ast.UnaryOp) and isinstance(n.op, ast.Not):
+            return "(PNot %s)" % conv(n.operand)
+        if isinstance(n, ast.BoolOp):
+            return "(PBoolOp %s %s)" % ("BAnd" if isinstance(n.op, ast.And) else "BOr", clist([conv(x) for x in n.values], str))
+        if isinstance(n, ast.Compare):
+            if len(n.ops) == 1 and isinstance(n.ops[0], ast.In) and isinstance(n.comparators[0], ast.List):
+                return "(PInList %s %s)" % (conv(n.left), clist([conv(x) for x in n.comparators[0].elts], str))
+            if (len(n.ops) == 1 and isinstance(n.ops[0], ast.IsNot) and isinstance(n.comparators[0], ast.Constant)
+                    and n.comparators[0].value is None and isinstance(n.left, ast.Call) and not n.left.keywords
+                    and len(n.left.args) == 2 and isinstance(n.left.func, ast.Attribute) and n.left.func.attr == "match"
+                    and isinstance(n.left.func.value, ast.Name) and n.left.func.value.id == "re"):
+                return "(PReMatch %s %s)" % (conv(n.left.args[0]), conv(n.left.args[1]))
+            ops = []
+            for o in n.ops:
+                if type(o).__name__ not in PY_CMP:
+                    raise SourceUnsupported("comparison %s" % type(o).__name__)
+                ops.append(PY_CMP[type(o).__name__])
+            return "(PCompare %s %s %s)" % (conv(n.left), clist(ops, str), clist([conv(x) for x in n.comparators], str))
+        raise SourceUnsupported("node %s" % type(n).__name__)
+
+    return conv(t.generators[0].ifs[0])
+
+
 REF_WORDS = None
 
 
@@ -637,6 +726,33 @@ def table_status(ctx):
 
 def nontrivial(s):
     return len(s.split()) > 1 or any(c in s for c in "<>=!&|(")
+
+
+# ---- the recorded recursion boundary of the grammar AS FOUND (19 infixNotation levels).  Measured on the unchanged tree
+# (tools: select_impl.py mode recursion_boundary, and 400 generated strings): parse_selection needs about
+# REF_BASE + REF_PER_PAREN * (parenthesis nesting depth) + REF_PER_UNARY * (unary operators) Python frames, never more
+# than 19 above that estimate.  Under the default limit of 1000 every expression with parentheses nested two deep and no
+# unary operator therefore parses (estimate 961), three deep never does (1271).  A RecursionError on a string whose
+# estimate is below REF_KNOWN_FROM is NOT the recorded defect: the grammar got deeper.
+REF_BASE, REF_PER_PAREN, REF_PER_UNARY, REF_KNOWN_FROM = 341, 310, 17, 970
+
+
+def nesting_shape(s):
+    """(parenthesis nesting depth, number of unary operator tokens) of a string, quoted parts ignored"""
+    t = re.sub(r"'[^']*'|\"[^\"]*\"", "Q", s)
+    d = m = 0
+    for ch in t:
+        if ch == "(":
+            d += 1
+            m = max(m, d)
+        elif ch == ")":
+            d -= 1
+    return m, len(re.findall(r"\bnot\b|!(?!=)", t))
+
+
+def frames_estimate_as_found(s):
+    d, u = nesting_shape(s)
+    return REF_BASE + REF_PER_PAREN * d + REF_PER_UNARY * u
 
 
 def run_cases(ctx, topo_specs, cases, pre=None):
@@ -693,13 +809,22 @@ def run_cases(ctx, topo_specs, cases, pre=None):
         if r.get("recursion_error_at_default_limit") and o[0] != "rejected":
             nrec = ctx.notes.setdefault("coverage_extra", {}).setdefault("recursion_error_cases", 0)
             ctx.notes["coverage_extra"]["recursion_error_cases"] = nrec + 1
-            if nrec < 25:
-                ctx.fail("a well-formed expression is refused with RecursionError under the default recursion limit "
-                         "(parentheses nested about three deep through 19 infixNotation levels)", full_case(c, topo_specs),
-                         observed="RecursionError", expected=list(o), tags={"kind": "recursion_error"})
-        if "idx" in sel and any(b <= a for a, b in zip(sel["idx"], sel["idx"][1:])):
-            ctx.fail("Topology.select returned indices that are not strictly increasing", full_case(c, topo_specs),
-                     observed=sel, expected="strictly increasing", tags={"kind": "unsorted"})
+            d, u = nesting_shape(c["s"])
+            est = frames_estimate_as_found(c["s"])
+            rtags = {"kind": "recursion_error", "paren_depth": d, "unary_operators": u, "frames_estimate_as_found": est}
+            if est >= REF_KNOWN_FROM:
+                if nrec < 25:
+                    ctx.fail("a well-formed expression is refused with RecursionError under the default recursion limit "
+                             "(parentheses nested about three deep through 19 infixNotation levels)", full_case(c, topo_specs),
+                             observed="RecursionError", expected=list(o), tags=rtags)
+            else:
+                nsh = ctx.notes["coverage_extra"].setdefault("recursion_error_cases_inside_recorded_boundary", 0)
+                ctx.notes["coverage_extra"]["recursion_error_cases_inside_recorded_boundary"] = nsh + 1
+                if nsh < 10:
+                    ctx.fail("a well-formed expression that the grammar as found parses within the default recursion limit "
+                             "(parentheses nested at most two deep, no unary operator: about 961 of 1000 frames) is refused "
+                             "with RecursionError: the grammar got deeper", full_case(c, topo_specs),
+                             observed="RecursionError", expected=list(o), tags=rtags)
     # 2. model comparison inside coqc
     items = [(i, c["topo"], c["s"], o) for i, (c, o) in enumerate(zip(cases, outs))
              if c["stream"] != "impl_only" and o[0] != "other"]
@@ -716,7 +841,7 @@ def run_cases(ctx, topo_specs, cases, pre=None):
     in_model = [i for i, c in enumerate(cases) if c["stream"] != "impl_only"]
     outside = [i for i in in_model if codes.get(i, 0) & 8]
     for i in outside:
-        if cases[i]["stream"] not in ("malformed", "lexical"):
+        if cases[i]["stream"] not in ("malformed", "lexical", "quoted"):
             ctx.break_("correspondence:generator-domain", "generated string outside the modelled domain: %r" % cases[i]["s"])
             break
     compared = [i for i in in_model if not codes.get(i, 0) & 8]
@@ -767,6 +892,54 @@ def run_cases(ctx, topo_specs, cases, pre=None):
             if codes[i] & 4:   # also not what the expression denotes under the conventional reading
                 fail("wrong", "Topology.select: result differs from the denotation of the expression", i,
                      "Coq: select_str gen_cfg / conventional gen_cfg", {"kind": "wrong_selection"})
+    # the order of the result.  The model lists a.index in the order of topology.atoms; where that order is not the index
+    # order (an atom added to an earlier residue after later ones exist) the as-found result is not increasing
+    compared_set = set(compared)
+    for i, (c, r) in enumerate(zip(cases, results)):
+        idx = r["select"].get("idx")
+        if idx is not None and any(b <= a for a, b in zip(idx, idx[1:])):
+            follows_model = i in compared_set and not codes.get(i, 0) & 1
+            budget["unsorted"] = budget.get("unsorted", 0) + 1
+            if budget["unsorted"] <= 4:
+                ctx.fail("Topology.select returned indices that are not strictly increasing", full_case(c, topo_specs),
+                         observed=r["select"], expected="strictly increasing",
+                         tags={"kind": "unsorted", "explained_by": "hierarchy_iteration_order" if follows_model else None})
+    if budget.get("unsorted"):
+        ctx.notes["coverage_extra"][tag + "unsorted_results"] = budget["unsorted"]
+    # the source of select_expression, parsed with Python's ast, converted node by node and evaluated by the MODEL's
+    # Python semantics on the atoms: it must give what Topology.select returned
+    sitems, unsupported = [], {}
+    for i, (c, r) in enumerate(zip(cases, results)):
+        if outs[i][0] not in ("sel", "typeerror") or not isinstance(r.get("source"), str):
+            continue
+        try:
+            sitems.append((i, c["topo"], c["s"], outs[i], source_to_coq(r["source"])))
+        except SourceUnsupported as e:
+            k = str(e).split(" ")[0]
+            unsupported[k] = unsupported.get(k, 0) + 1
+    if ctx.tier == "quick" and len(sitems) > 900:
+        keep = set(ctx.rng.sample(range(len(sitems)), 900))
+        sitems = [it for k, it in enumerate(sitems) if k in keep or cases[it[0]]["stream"].startswith(("history", "nesting", "witness"))]
+    scodes, serrs = coq_codes(ctx, atoms_by_topo, sitems, fn="src_codes", extra_require=" MD.Select.SourceEval",
+                              case_type="nat * string * pyexpr * outcome",
+                              case_fmt=lambda lti, it: "(%d%%nat, %s, %s, %s)" % (lti, cstr(it[2]) if all(32 <= ord(ch) <= 126 for ch in it[2]) else cstr("\x7f"), it[4], coq_outcome(it[3])))
+    if serrs:
+        ctx.break_("correspondence:coqc-evaluation(source)", "\n".join(serrs))
+    else:
+        nbad = 0
+        for i in sorted(scodes, key=lambda i: len(cases[i]["s"])):
+            if scodes[i] & 1 and not scodes[i] & 8:
+                nbad += 1
+                if nbad <= 10:
+                    ctx.fail("the source of Topology.select_expression, evaluated independently (parsed with ast, run by the model's "
+                             "Python semantics on the atoms), does not give what Topology.select returned",
+                             full_case(cases[i], topo_specs), observed={"select": list(outs[i]), "source": results[i].get("source")},
+                             expected="Coq: run_compiled gen_cfg atoms (Some <source>) = select", tags={"kind": "source_eval_differs"})
+        st = ctx.notes["coverage_extra"].setdefault(tag + "source_evaluated_by_model", {})
+        st.update({"sources_converted_and_evaluated": len(sitems), "differ_from_select": nbad,
+                   "outside_model_regex_subset": sum(1 for v in scodes.values() if v & 8),
+                   "not_term_for_term_the_compiled_model_predicate": sum(1 for v in scodes.values() if v & 2),
+                   "not_converted": unsupported})
     vbit = 1 if variant == "as_found" else 2
     for i in sorted(compared, key=lambda i: len(cases[i]["s"])):
         c, code = cases[i], codes.get(i, 0)
@@ -825,9 +998,66 @@ HIST_SELECTIONS = ["n_bonds 2", "n_bonds == 0", "n_bonds 1 and water", "n_bonds 
                    "symbol VS", "name CA", "name MW H1", "resname HOH SOL", "resn TIP2 ALA", "all", "not water and n_bonds 0"]
 
 
-def gen_history(rng, n_edits):
+TWIN_EXTRA = ["name CA", "chainid 0", "water", "index 0 to 3", "resname HOH SOL", "n_bonds 1", "protein and not backbone"]
+
+
+def gen_twin_history(rng):
+    """two Topology objects that compare == (same chains, atom names, elements, residue names, bonds) and differ in what
+    Topology.__eq__ / __hash__ ignore: residue numbering, segment ids, chain ids.  The same strings are asked of the
+    first, of the twin, of the first again; then the twin (and later the first) is edited in place and asked again."""
+    names = ["GLY", "ALA", "HOH", "SOL", "NA", "SER", "LIG"]
+    chains, seq = [], 1
+    for _ in range(rng.randint(1, 2)):
+        ch = []
+        for _ in range(rng.randint(2, 3)):
+            ch.append((rng.choice(names), seq, rng.choice(SEGS)))
+            seq += rng.choice([1, 1, 2])
+        chains.append(ch)
+    spec = topo_spec(chains)
+    seqs = [r[1] for ch in chains for r in ch]
+    segs = sorted({r[2] for ch in chains for r in ch if r[2]}) or ["A"]
+    shift = rng.choice([100, 10, 1, -1])
+    segmap = dict(zip(SEGS, SEGS[1:] + SEGS[:1])) if rng.random() < 0.7 else {}
+    a, b = sorted(rng.sample(seqs, 2))
+    lit = lambda g: g if g else "SEG1"                                               # noqa: E731
+    focus = ["resSeq %d to %d" % (a, b), "residue %d %d" % (rng.choice(seqs), rng.choice(seqs) + shift),
+             "resSeq < %d" % (max(seqs) + min(0, shift) + 1), "resSeq %d" % (rng.choice(seqs) + shift),
+             "segname %s" % lit(rng.choice(segs)), "segment_id %s %s" % (lit(segmap.get(segs[0], segs[0])), lit(rng.choice(SEGS))),
+             "water and resSeq <= %d" % b, "segment_id %s or resSeq %d" % (lit(rng.choice(SEGS)), rng.choice(seqs) + shift),
+             rng.choice(TWIN_EXTRA), gen_simple(rng)]
+    steps = []
+
+    def ask(obj):
+        for s_ in focus:
+            steps.append({"op": "sel", "s": s_, "obj": obj})
+
+    ask(0)
+    steps.append({"op": "twin", "from": 0, "how": rng.choice(["copy", "rebuild"]), "shift": shift, "segmap": segmap,
+                  "chain_ids": [rng.choice(["A", "B", "X"]) for _ in chains]})
+    ask(1)
+    ask(0)
+    nres = len(seqs)
+    for obj in (1, 0):
+        k = rng.choice(["renumber", "resegment", "resSeq", "segid", "rename_atom"])
+        if k == "renumber":
+            steps.append({"op": "renumber", "shift": -shift if obj == 1 else shift, "obj": obj})
+        elif k == "resegment":
+            steps.append({"op": "resegment", "map": dict(zip(SEGS, SEGS[2:] + SEGS[:2])), "obj": obj})
+        elif k == "resSeq":
+            steps.append({"op": "resSeq", "res": rng.randrange(nres), "value": rng.choice(seqs), "obj": obj})
+        elif k == "segid":
+            steps.append({"op": "segid", "res": rng.randrange(nres), "value": rng.choice(SEGS), "obj": obj})
+        else:
+            steps.append({"op": "rename_atom", "index": 0, "name": "CA", "obj": obj})
+        ask(obj)
+        ask(1 - obj)
+    return {"spec": spec, "steps": steps}
+
+
+def gen_history(rng, n_edits, patched=False):
     """a small topology, then selections interleaved with in-place edits.  Sizes are mirrored here only to keep the
-    edit arguments in range."""
+    edit arguments in range.  patched: the first edit adds an atom to an earlier residue (Topology.add_atom), after
+    which the order of topology.atoms is no longer the index order."""
     names = ["GLY", "ALA", "HOH", "HOH", "SOL", "NA", "SER", "LIG"]
     chains = []
     for _ in range(rng.randint(1, 2)):
@@ -837,20 +1067,38 @@ def gen_history(rng, n_edits):
     nch = len(spec["chains"])
     steps = []
 
+    # the SAME strings are asked again after every edit (an answer remembered per string must not survive the edit),
+    # next to fresh ones
+    focus = rng.sample(HIST_SELECTIONS, 3) + [rng.choice(HIST_SELECTIONS[:7]), gen_simple(rng)]
+
     def sels(k):
-        for s_ in rng.sample(HIST_SELECTIONS, k - 1) + [rng.choice(HIST_SELECTIONS[:7])]:
+        for s_ in focus + rng.sample(HIST_SELECTIONS, max(1, k - 4)):
             steps.append({"op": "sel", "s": s_})
         if rng.random() < 0.5:
             steps.append({"op": "sel", "s": gen_simple(rng)})
 
     sels(5)
-    for _ in range(n_edits):
+    for ei in range(n_edits):
         nat = sum(sizes)
-        kinds = ["insert", "insert", "insert", "bond", "rename_atom", "rename_res", "element", "resSeq", "segid", "chain_id"]
+        kinds = ["insert", "insert", "insert", "bond", "rename_atom", "rename_res", "element", "resSeq", "segid", "chain_id",
+                 "renumber", "resegment"]
         if nat > 3:
             kinds += ["delete", "delete"]
+        if len(sizes) > 1:
+            kinds += ["add_late"]
         k = rng.choice(kinds)
-        if k == "insert":
+        if patched and ei == 0 and len(sizes) > 1:
+            k = "add_late"
+        if k == "add_late":
+            ri = rng.randrange(len(sizes) - 1)
+            steps.append({"op": "add_late", "res": ri, "name": rng.choice(["OXT", "H3", "MW", "O"]),
+                          "element": rng.choice([None, "H", "O"])})
+            sizes[ri] += 1
+        elif k == "renumber":
+            steps.append({"op": "renumber", "shift": rng.choice([1, -1, 2, 100])})
+        elif k == "resegment":
+            steps.append({"op": "resegment", "map": dict(zip(SEGS, rng.sample(SEGS, len(SEGS))))})
+        elif k == "insert":
             ri = rng.randrange(len(sizes))
             where = rng.choice(["front", "middle", "end", "append"])
             if where == "append":
@@ -987,6 +1235,14 @@ def build_cases(ctx):
                    "rescode A G C X", "code None", "resname %s" % " ".join(rng.sample(names, min(3, len(names)))),
                    "water and name O", "protein and name CA"]:
             add(s_, "residue_tables", topo=ti)
+    # parenthesis nesting at every depth up to the recorded recursion boundary and one beyond
+    for d, ss in NESTING.items():
+        for s_ in ss:
+            add(s_, "nesting/%d" % d, topo=rng.choice([0, 1, 3]))
+    for s_ in chain_cases(rng, 60 if quick else 1200):
+        add(s_, "chains")
+    for s_ in QUOTED:
+        add(s_, "quoted", topo=rng.choice([0, 5]))
     for s in IMPL_ONLY:
         add(s, "impl_only", 0)
     if not quick:
@@ -1093,12 +1349,94 @@ def run_meta(ctx, specs, n):
     return len(out["bad"])
 
 
+NESTING = {
+    0: ["protein", "not protein and water", "name CA CB or resSeq 1 to 2"],
+    1: ["(protein)", "protein and (water or name CA)", "not (water or name CA CB)", "(name CA) or (resSeq 2)"],
+    2: ["((protein))", "protein and (water or (name CA))", "((name CA or name CB) and protein) or water",
+        "(water and (name O)) or resSeq 3", "((index 1 to 4))", "((name =~ 'C.*'))", "(protein and (mass < 13)) or ((water))",
+        "name CA or (resname ALA and (index < 5 or index > 7))"],
+    3: ["(((protein)))", "protein and (water or (backbone and (all or none)))"],
+}
+BOUNDARY_EXPRS = ["protein", "(protein)", "((protein))", "(((protein)))", "((((protein))))", "not protein", "not (not (protein))"]
+
+
+QUOTED = ["name 'CA' \"CB\" C", "resname \"ALA\" 'GLY'", "name == 'C A'", "name 'and'", "name \"or\" 'not' CA", "resname 'to'",
+          "name 'protein'", "'CA' == name", "name 'name'", "name '(' ')'", "name 'CA)'", "(name 'CA') or name \"(\"", "name '1'", "resSeq '1'",
+          "resSeq == '1'", "name 'CA' to 'CB'", "name 'A' to \"Z\"", "name =~ \"C.*\"", "name =~ 'C A'", "name ' CA'", "name 'CA '", "name ''",
+          "name '&&'", "name '<'", "name \"=~\"", "name 'it''s'", "name 'a\"b'", "name \"a'b\"", "segname 'A' \"B\" SEG1", "name 'None'", "name None",
+          "code 'None'", "code None", "name 'True'", "name True"]
+
+
+def chain_cases(rng, n):
+    """operator chains without parentheses: n-ary and/or in mixed spellings, unary chains, comparison chains with the same
+    and with different operators, range/list conditions as chain members"""
+    out = []
+    for _ in range(n):
+        r = rng.random()
+        if r < 0.35:
+            k = rng.randint(3, 6)
+            sp = rng.choice([AND_SP, OR_SP, AND_SP + OR_SP])
+            ts = toks(gen_atomic(rng), "conv", rng)
+            for _ in range(k - 1):
+                ts += [rng.choice(sp)] + toks(gen_atomic(rng), "conv", rng)
+        elif r < 0.55:
+            ts = [rng.choice(NOT_SP) for _ in range(rng.randint(2, 4))] + toks(gen_atomic(rng), "conv", rng)
+            if rng.random() < 0.5:
+                ts += [rng.choice(AND_SP + OR_SP)] + [rng.choice(NOT_SP) for _ in range(rng.randint(1, 3))] + toks(gen_atomic(rng), "conv", rng)
+        elif r < 0.85:
+            k = rng.randint(3, 4)
+            same = rng.random() < 0.4
+            o = rng.choice(CMP_SP)
+            ts = [rng.choice(NUM_KW + NUM_LITS[:6])]
+            for _ in range(k - 1):
+                ts += [o if same else rng.choice(CMP_SP), rng.choice(NUM_KW + NUM_LITS[:8])]
+        else:
+            ts = toks(gen_atomic(rng), "conv", rng) + [rng.choice(CMP_SP + ["=~"])] + toks(gen_atomic(rng), "conv", rng) + [
+                rng.choice(AND_SP + OR_SP + CMP_SP)] + toks(gen_atomic(rng), "conv", rng)
+        out.append(join(ts, rng, rng.choice([0.0, 0.5])))
+    return out
+
+
+def recursion_boundary(ctx):
+    """the recorded boundary of the recursive-descent parse: frames needed per parenthesis level, measured on the checked
+    tree.  As found (19 infixNotation levels): 340 + 310 per level, so two levels fit into the default limit of 1000 and
+    three do not.  A grammar under which plain nesting two deep no longer fits is a failure of its own (tags carry the
+    as-found estimate, so that the recorded three-deep finding does not cover it)."""
+    out = ctx.run_impl("select_impl.py", {"mode": "recursion_boundary", "exprs": BOUNDARY_EXPRS}, timeout=1200)
+    need, limit = out["need"], out["default_limit"]
+    plain = [need["(" * d + "protein" + ")" * d] for d in range(5)]
+    deepest = max([d for d in range(5) if all(n <= limit for n in plain[:d + 1])], default=-1)
+    ctx.notes.setdefault("coverage_extra", {})["recursion_boundary"] = {
+        "frames_needed": need, "caller_stack_depth": out["stack_depth"], "default_limit": limit,
+        "frames_per_parenthesis_level": plain[2] - plain[1], "frames_per_unary_operator": need["not protein"] - need["protein"],
+        "deepest_plain_nesting_within_default_limit": deepest, "as_found_reference": {
+            "base": REF_BASE, "per_parenthesis": REF_PER_PAREN, "per_unary": REF_PER_UNARY, "deepest_plain_nesting": 2}}
+    for d in range(0, 3):
+        s_ = "(" * d + "protein" + ")" * d
+        ctx.count({"topo": "-", "s": s_, "boundary": True}, nontrivial=d > 0, bucket="recursion_boundary")
+        if need[s_] > limit:
+            ctx.fail("a well-formed expression that the grammar as found parses within the default recursion limit "
+                     "(parentheses nested at most two deep, no unary operator: about 961 of 1000 frames) is refused "
+                     "with RecursionError: the grammar got deeper",
+                     {"topo_spec": fixed_topologies()[3], "s": s_, "stream": "nesting", "malformed": None},
+                     observed={"frames_needed": need[s_], "default_limit": limit}, expected="parses (as found: %d frames)"
+                     % (REF_BASE + REF_PER_PAREN * d),
+                     tags={"kind": "recursion_error", "paren_depth": d, "unary_operators": 0,
+                           "frames_estimate_as_found": frames_estimate_as_found(s_)})
+            break
+
+
 def correspond(ctx):
     specs, cases = build_cases(ctx)
     ctx.log("cases:", len(cases))
     run_cases(ctx, specs, cases)
     # history axis: selections interleaved with in-place edits on one Topology object
-    run_histories(ctx, [gen_history(ctx.rng, ctx.rng.randint(3, 7)) for _ in range(10 if ctx.tier == "quick" else 150)])
+    quick = ctx.tier == "quick"
+    hs = [gen_history(ctx.rng, ctx.rng.randint(3, 7)) for _ in range(8 if quick else 120)]
+    hs += [gen_history(ctx.rng, ctx.rng.randint(2, 4), patched=True) for _ in range(2 if quick else 30)]
+    hs += [gen_twin_history(ctx.rng) for _ in range(4 if quick else 60)]
+    run_histories(ctx, hs)
+    recursion_boundary(ctx)
     # sentinel: the model-free oracles on a small budget
     small_specs = [sp for sp in specs if sum(len(r["atoms"]) for c in sp["chains"] for r in c["residues"]) <= 60]
     run_meta(ctx, small_specs, 80 if ctx.tier == "quick" else 1500)
